@@ -498,7 +498,9 @@ class Check:
                     "axioms reported by Print Assumptions in this run: " + (", ".join(info["axioms"]) if info["axioms"] else "none (Closed under the global context)"),
                     "extraction: ExtrOcamlBasic only, no Extract Constant; hand-written coq/Extract/driver.ml (s-expression I/O, int<->Z)",
                     "correspondence harness (generators, canonical observation, oracles) in /verif/harness",
-                ] + getattr(mod, "TRUSTED", []),
+                ] + (["translators harness/translate.py and harness/translate_px.py (Python ast -> Gallina, fail-closed) for the functions listed under "
+                      "translated_kernels: trusted to render the small Python subset faithfully; the readings they adopt are stated in the "
+                      "generated headers coq/Gen/K_*.v and in DESIGN.md section 7"] if info.get("kernels") else []) + getattr(mod, "TRUSTED", []),
                 "theorems": info["theorems"],
                 "evaluations": len(results),
                 "distinct_nontrivial": len(nontriv),
